@@ -171,59 +171,225 @@ func (ex *Exec) jump(st *State, fr *Frame, to *ssa.BasicBlock) error {
 	return nil
 }
 
-func (ex *Exec) doIf(st *State, fr *Frame, x *ssa.If) error {
+// A leaf of a decision DAG: the block reached, the block it is entered from
+// (for phis) and the condition under which it is reached.
+type ifLeaf struct {
+	g    *smt.Term
+	to   *ssa.BasicBlock
+	pred *ssa.BasicBlock
+}
+
+// pureInstr reports whether an instruction can be evaluated speculatively:
+// no side effect and no run-time check.
+func pureInstr(in ssa.Instruction) bool {
+	switch x := in.(type) {
+	case *ssa.BinOp:
+		switch x.Op {
+		case token.QUO, token.REM:
+			return false
+		case token.SHL, token.SHR:
+			_, signed, _ := intWidth(x.Y.Type())
+			return !signed
+		}
+		_, _, isInt := intWidth(x.X.Type())
+		return isInt
+	case *ssa.UnOp:
+		return x.Op == token.NOT || x.Op == token.SUB || x.Op == token.XOR
+	case *ssa.Convert:
+		_, _, a := intWidth(x.X.Type())
+		_, _, b := intWidth(x.Type())
+		return a && b
+	case *ssa.ChangeType, *ssa.Phi, *ssa.DebugRef:
+		return true
+	}
+	return false
+}
+
+func foldable(b *ssa.BasicBlock) bool {
+	if len(b.Preds) != 1 || len(b.Instrs) == 0 || len(b.Instrs) > 12 {
+		return false
+	}
+	for i, in := range b.Instrs {
+		if i == len(b.Instrs)-1 {
+			_, ok := in.(*ssa.If)
+			return ok
+		}
+		if !pureInstr(in) {
+			return false
+		}
+	}
+	return false
+}
+
+// decision collects the leaves of the DAG of pure if-blocks that starts at
+// the If instruction x of block cur ("a && b", "a || b || c", range checks):
+// the blocks in between are evaluated on the spot and never become paths.
+func (ex *Exec) decision(st *State, fr *Frame, cur *ssa.BasicBlock, x *ssa.If, g *smt.Term, depth int, out *[]ifLeaf) error {
 	cv, err := ex.get(st, fr, x.Cond)
 	if err != nil {
 		return err
 	}
 	cond := cv.(*smt.Term)
-	if cond.IsConst() {
-		ex.res.BranchSyn++
-		if cond.Val != 0 {
-			return ex.jump(st, fr, fr.block.Succs[0])
+	for i, succ := range cur.Succs {
+		gi := cond
+		if i == 1 {
+			gi = ex.ctx.Not(cond)
 		}
-		return ex.jump(st, fr, fr.block.Succs[1])
+		gi = ex.ctx.And(g, gi)
+		if gi.IsFalse() {
+			continue
+		}
+		if depth < 10 && !cond.IsConst() && foldable(succ) {
+			// evaluate the block's pure instructions (its values are only
+			// ever used below this block, which has a single predecessor)
+			for _, in := range succ.Instrs[:len(succ.Instrs)-1] {
+				switch v := in.(type) {
+				case *ssa.Phi:
+					pv, err := ex.get(st, fr, v.Edges[0])
+					if err != nil {
+						return err
+					}
+					ex.set(fr, v, pv)
+				case ssa.Value:
+					val, err := ex.eval(st, fr, v)
+					if err != nil {
+						return err
+					}
+					ex.set(fr, v, st.fold(val))
+				}
+			}
+			if err := ex.decision(st, fr, succ, succ.Instrs[len(succ.Instrs)-1].(*ssa.If), gi, depth+1, out); err != nil {
+				return err
+			}
+			continue
+		}
+		*out = append(*out, ifLeaf{g: gi, to: succ, pred: cur})
 	}
-	nc := ex.ctx.Not(cond)
-	if st.pcSet[cond.ID] {
-		ex.res.BranchSyn++
-		return ex.jump(st, fr, fr.block.Succs[0])
+	return nil
+}
+
+// samePhis reports whether entering block to from a or from b gives every phi
+// the same value.
+func (ex *Exec) samePhis(st *State, fr *Frame, to, a, b *ssa.BasicBlock) bool {
+	if a == b {
+		return true
 	}
-	if st.pcSet[nc.ID] {
+	ia, ib := -1, -1
+	for i, p := range to.Preds {
+		if p == a {
+			ia = i
+		}
+		if p == b {
+			ib = i
+		}
+	}
+	if ia < 0 || ib < 0 {
+		return false
+	}
+	for _, in := range to.Instrs {
+		phi, ok := in.(*ssa.Phi)
+		if !ok {
+			break
+		}
+		va, err1 := ex.get(st, fr, phi.Edges[ia])
+		vb, err2 := ex.get(st, fr, phi.Edges[ib])
+		if err1 != nil || err2 != nil || !sameValue(va, vb) {
+			return false
+		}
+	}
+	return true
+}
+
+// sameValue is identity of symbolic values (terms are hash-consed).
+func sameValue(a, b Value) bool {
+	ta, ok1 := a.(Tuple)
+	tb, ok2 := b.(Tuple)
+	if ok1 || ok2 {
+		if !ok1 || !ok2 || len(ta) != len(tb) {
+			return false
+		}
+		for i := range ta {
+			if !sameValue(ta[i], tb[i]) {
+				return false
+			}
+		}
+		return true
+	}
+	return a == b
+}
+
+func (ex *Exec) jumpFrom(st *State, fr *Frame, pred, to *ssa.BasicBlock) error {
+	fr.block = pred
+	return ex.jump(st, fr, to)
+}
+
+func (ex *Exec) doIf(st *State, fr *Frame, x *ssa.If) error {
+	var leaves []ifLeaf
+	if err := ex.decision(st, fr, fr.block, x, ex.ctx.True, 0, &leaves); err != nil {
+		return err
+	}
+	// merge leaves that reach the same block with the same phi values
+	var groups []ifLeaf
+	for _, l := range leaves {
+		merged := false
+		for i := range groups {
+			if groups[i].to == l.to && ex.samePhis(st, fr, l.to, groups[i].pred, l.pred) {
+				groups[i].g = ex.ctx.Or(groups[i].g, l.g)
+				merged = true
+				break
+			}
+		}
+		if !merged {
+			groups = append(groups, l)
+		}
+	}
+	if len(groups) == 0 {
+		return errDead
+	}
+	if len(groups) == 1 {
 		ex.res.BranchSyn++
-		return ex.jump(st, fr, fr.block.Succs[1])
+		return ex.jumpFrom(st, fr, groups[0].pred, groups[0].to)
+	}
+	// syntactic decisions from the path condition
+	for _, gr := range groups {
+		if st.pcSet[gr.g.ID] {
+			ex.res.BranchSyn++
+			return ex.jumpFrom(st, fr, gr.pred, gr.to)
+		}
 	}
 	ex.res.BranchSolver++
 	st.symBr++
-	rt := ex.sat(st, cond)
-	var rf smt.Result
-	if rt == smt.Unsat {
-		rf = smt.Sat
-	} else {
-		rf = ex.sat(st, nc)
+	var feas []ifLeaf
+	for i, gr := range groups {
+		var r smt.Result
+		if i == len(groups)-1 && len(feas) == 0 {
+			r = smt.Sat // the state is feasible, so the last remaining side is
+		} else {
+			r = ex.sat(st, gr.g)
+		}
+		if r == smt.Unknown {
+			ex.incomplete(st, "INCONCLUSIVE branch feasibility at "+ex.pos(x)+" (side kept)")
+		}
+		if r != smt.Unsat {
+			feas = append(feas, gr)
+		}
 	}
-	if rt == smt.Unknown || rf == smt.Unknown {
-		ex.incomplete(st, "INCONCLUSIVE branch feasibility at "+ex.pos(x)+" (both sides kept)")
+	if len(feas) == 0 {
+		return errDead
 	}
-	switch {
-	case rt != smt.Unsat && rf != smt.Unsat:
+	for _, gr := range feas[1:] {
 		o := st.clone()
 		ofr := o.frame()
-		o.assume(nc)
-		if err := ex.jump(o, ofr, ofr.block.Succs[1]); err == nil {
+		o.assume(gr.g)
+		if err := ex.jumpFrom(o, ofr, gr.pred, gr.to); err == nil {
 			ex.push(o)
 		}
 		ex.res.Forks++
-		st.assume(cond)
-		return ex.jump(st, fr, fr.block.Succs[0])
-	case rt != smt.Unsat:
-		st.assume(cond)
-		return ex.jump(st, fr, fr.block.Succs[0])
-	case rf != smt.Unsat:
-		st.assume(nc)
-		return ex.jump(st, fr, fr.block.Succs[1])
 	}
-	return errDead
+	if len(feas) > 1 || !feas[0].g.IsTrue() {
+		st.assume(feas[0].g)
+	}
+	return ex.jumpFrom(st, fr, feas[0].pred, feas[0].to)
 }
 
 func (ex *Exec) doReturn(st *State, fr *Frame, x *ssa.Return) error {
